@@ -136,6 +136,10 @@ def run(rep):
             transformation(rep, mir, L, d, tkind)
             init_trajectory(rep, mir, L, d, tkind)
     for d in dims: exact_normal(rep, mir, L, d)
+    for d in dims:
+        for tkind in ('diag', 'lowrank1'):
+            if tkind == 'lowrank1' and d < 2: continue
+            exact_normal_scheme(rep, mir, L, d, tkind)
     substeps(rep, mir, L)
 
 def _check(rep, name, key, cons, describe, timeout=None):
@@ -201,8 +205,10 @@ def leapfrog_textbook(rep, mir, L, d, tkind):
         for (m, k, v) in outs:
             if k != 'ret' or v.name != 'Ok': continue
             out = S.point(m, v.f[0]); pre = S.pre + m.pc; p1_code = S.JinvT(out['velocity'])
-            _check(rep, 'C02.a original-space position = textbook x + eps M^-1 p_half, M^-1 = F F^T (%s)' % tag, 'textbook.position.%s' % tkind, pre + [z3.Or(*[out['untransformed_position'][i] != x1[i] for i in range(d)])], 'position deviates from the textbook leapfrog', timeout=60000)
-            _check(rep, 'C02.a original-space momentum F^-T v\' = textbook p_half + eps/2 grad(x\') (%s)' % tag, 'textbook.momentum.%s' % tkind, pre + [z3.Or(*[p1_code[i] != p1[i] for i in range(d)])], 'momentum deviates from the textbook leapfrog', timeout=60000)
+            vp = _check(rep, 'C02.a original-space position = textbook x + eps M^-1 p_half, M^-1 = F F^T (%s)' % tag, 'textbook.position.%s' % tkind, pre + [z3.Or(*[out['untransformed_position'][i] != x1[i] for i in range(d)])], 'position deviates from the textbook leapfrog', timeout=60000)
+            # the position equality just proved is handed to the momentum query as a lemma (it lets congruence identify grad(x') in both schemes without non-linear reasoning)
+            lemma = [out['untransformed_position'][i] == x1[i] for i in range(d)] if vp == 'holds' else []
+            _check(rep, 'C02.a original-space momentum F^-T v\' = textbook p_half + eps/2 grad(x\') (%s)' % tag, 'textbook.momentum.%s' % tkind, pre + lemma + [z3.Or(*[p1_code[i] != p1[i] for i in range(d)])], 'momentum deviates from the textbook leapfrog', timeout=120000)
         rep.absorb_vm(S.vm)
 
 def transformation(rep, mir, L, d, tkind):
@@ -300,6 +306,59 @@ def exact_normal(rep, mir, L, d):
             E1 = o['kinetic_energy'] - (o['logp'] + o['logdet']); E0 = st['ke'] - (st['logp'] + S.logdet.v)
             _check(rep, 'C02.e ExactNormal conserves energy exactly on a standard normal (d=%d %s)' % (d, direction), 'exact_normal.energy', S.pre + ident + m.pc + ax + [E1 != E0], 'ExactNormal integrator changes the energy on a standard-normal target', timeout=240000)
     rep.axioms.append('sin(t)^2 + cos(t)^2 = 1 on the occurring arguments'); rep.absorb_vm(S.vm)
+
+def exact_normal_scheme(rep, mir, L, d, tkind):
+    """ExactNormal kind with an arbitrary transformation and density: the step is  kick(eps/2) o rotation(eps) o kick(eps/2)  in whitened
+    coordinates with the residual force  y + grad_y  (the N(0, I) part is integrated exactly by the rotation), the new point is evaluated at
+    x' = F(y'), and a forward step followed by a backward step returns the start."""
+    for direction in ('Forward', 'Backward'):
+        sign = 1 if direction == 'Forward' else -1
+        tag = 'd=%d %s %s' % (d, tkind, direction)
+        S = Setup(mir, L, d, tkind, 'ExactNormal'); A = S.A
+        h, st = S.consistent_start(free=True); eps = sign * S.eps.v
+        outs = S.leapfrog(S.m, h, direction); rep.paths += len(outs)
+        oks = [(m, v) for (m, k, v) in outs if k == 'ret' and v.name == 'Ok']
+        if any(k == 'panic' for (_, k, _) in outs) or not oks:
+            rep.violated('C02.e2 ExactNormal leapfrog reaches Ok (%s)' % tag, 'exact_normal.reach', 'ExactNormal leapfrog panics or never returns Ok'); continue
+        sin, cos = A.uf['sin'], A.uf['cos']
+        def trig_ax():
+            ax = []
+            for (n, args, term) in list(A.used):
+                if n in ('sin', 'cos'):
+                    t = args[0]; ax += [sin(t) * sin(t) + cos(t) * cos(t) == 1, sin(-t) == -sin(t), cos(-t) == cos(t)]
+            return ax
+        for (m, v) in oks:
+            out = S.point(m, v.f[0]); pre = S.pre + m.pc
+            used = [(n, a, t) for (n, a, t) in A.used if n in ('sin', 'cos')]
+            if not used: rep.violated('C02.e2 rotation present (%s)' % tag, 'exact_normal.scheme', 'ExactNormal step contains no rotation'); continue
+            e_code = used[0][1][0]; sn, cs = sin(e_code), cos(e_code)
+            vh = [st['v'][i] + eps / 2 * (st['y'][i] + st['tg'][i]) for i in range(d)]
+            y1 = [st['y'][i] * cs + vh[i] * sn for i in range(d)]; vr = [-st['y'][i] * sn + vh[i] * cs for i in range(d)]
+            x1 = S.F(y1); g1 = S.G(x1); tg1 = S.JT(g1)
+            v1 = [vr[i] + eps / 2 * (y1[i] + tg1[i]) for i in range(d)]
+            _check(rep, 'C02.e2 ExactNormal: rotation angle = signed step size; y\' = y cos + v_half sin with v_half = v + eps/2 (y + grad_y) (%s)' % tag, 'exact_normal.position.%s' % tkind,
+                   pre + [z3.Or(e_code != eps, *[out['transformed_position'][i] != y1[i] for i in range(d)])], 'ExactNormal position update deviates from kick-rotate-kick')
+            cons = [out['untransformed_position'][i] != x1[i] for i in range(d)] + [out['untransformed_gradient'][i] != g1[i] for i in range(d)] + [out['transformed_gradient'][i] != tg1[i] for i in range(d)] + [out['logp'] != S.U(x1)]
+            _check(rep, 'C02.e2 ExactNormal: new point evaluated at x\' = F(y\') (%s)' % tag, 'exact_normal.consistent.%s' % tkind, pre + [z3.Or(*cons)], 'ExactNormal: density evaluated at the wrong point / gradient not pulled back')
+            _check(rep, 'C02.e2 ExactNormal: v\' = rotated velocity + eps/2 (y\' + grad_y(y\')) (residual force in whitened coordinates) (%s)' % tag, 'exact_normal.momentum.%s' % tkind,
+                   pre + [z3.Or(*[out['velocity'][i] != v1[i] for i in range(d)])], 'ExactNormal second half-kick deviates from eps/2 (y\' + grad_y(y\')) in whitened coordinates')
+            E = z3.RealVal('1/2') * z3.Sum([t * t for t in out['velocity']]) - (out['logp'] + S.logdet.v)
+            _check(rep, 'C02.e2 ExactNormal: energy = 1/2|v|^2 - (logp + logdet), index advanced (%s)' % tag, 'exact_normal.energy_def.%s' % tkind,
+                   pre + [z3.Or(out['kinetic_energy'] - (out['logp'] + out['logdet']) != E, out['idx'] != st['idx'] + sign)], 'ExactNormal energy / bookkeeping of the new point wrong')
+        rep.absorb_vm(S.vm)
+    if tkind != 'diag': return
+    # reversibility: the code equals the scheme Phi_eps from ANY start and for both signs (obligations above), so forward-then-backward is
+    # Phi_-eps o Phi_eps on the scheme; T1 stands for grad_y at the intermediate point (same value in both steps: same point), and the
+    # backward step's gradient at its end point y2 is grad_y(y) once y2 = y (stage 1) by congruence.
+    y = [z3.Real('ry_%d' % i) for i in range(d)]; v = [z3.Real('rv_%d' % i) for i in range(d)]; tg = [z3.Real('rtg_%d' % i) for i in range(d)]; T1 = [z3.Real('rT1_%d' % i) for i in range(d)]
+    e, sn, cs = z3.Real('reps'), z3.Real('rsin'), z3.Real('rcos'); circ = [sn * sn + cs * cs == 1]
+    vh = [v[i] + e / 2 * (y[i] + tg[i]) for i in range(d)]; y1 = [y[i] * cs + vh[i] * sn for i in range(d)]; vr = [-y[i] * sn + vh[i] * cs for i in range(d)]
+    v1 = [vr[i] + e / 2 * (y1[i] + T1[i]) for i in range(d)]
+    # backward: eps -> -eps, sin -> -sin, cos -> cos
+    bh = [v1[i] - e / 2 * (y1[i] + T1[i]) for i in range(d)]; y2 = [y1[i] * cs - bh[i] * sn for i in range(d)]; br = [y1[i] * sn + bh[i] * cs for i in range(d)]
+    v2 = [br[i] - e / 2 * (y2[i] + tg[i]) for i in range(d)]
+    _check(rep, 'C02.e2 kick-rotate-kick scheme: backward after forward returns the position (sin^2+cos^2=1, sin odd, cos even) (d=%d)' % d, 'exact_normal.reversible', circ + [z3.Or(*[y2[i] != y[i] for i in range(d)])], 'ExactNormal scheme not reversible in position', timeout=60000)
+    _check(rep, 'C02.e2 kick-rotate-kick scheme: backward after forward returns the velocity (d=%d)' % d, 'exact_normal.reversible', circ + [y2[i] == y[i] for i in range(d)] + [z3.Or(*[v2[i] != v[i] for i in range(d)])], 'ExactNormal scheme not reversible in velocity', timeout=60000)
 
 def substeps(rep, mir, L):
     """each sub-step is a shear: the velocity increment does not depend on the velocity, the position increment not on the position"""
